@@ -21,6 +21,10 @@ type FuncReport struct {
 }
 
 func (x *Exec) initGhosts() {
+	for _, ra := range x.db.RawAxioms {
+		x.ctx.addAxiom(ra[0], ra[1])
+		x.trusted["raw axiom on "+ra[0]+": "+ra[1]]++
+	}
 	env := &SpecEnv{x: x, what: "ghost declarations"}
 	for _, g := range x.db.Ghosts {
 		func() {
